@@ -243,6 +243,19 @@ def run(ctx):
     ctx.add_bounded('lm-wrapper-determinism', 'real LMWrapper around a freshly constructed 2-layer LSTM LM with dropout (training mode as delivered) x seeds x beam widths {1,2,4}: one matrix decoded first, after another line, and once more',
                     res3['evaluations'], res3['nontrivial'], True, res3['samples'], fails3, rule='every (seed, beam width)',
                     clause='processing the same line twice through one decoder gives identical hypotheses and scores')
+    # "in a resumed run": the real parse_folder.main() (harness of the C17 check: stub page parser whose output depends on the page
+    # IMAGE, real writers) is killed after k writes and resumed with --skip-processed, sequentially and with worker processes
+    # requested: every page gets the outputs it gets in an uninterrupted run
+    from props import C17 as c17
+    ids3 = ['p1', 'p2', 'a.jpg.b']
+    rplans = [(ids3, ('xml', 'logits'), (k,)) for k in range(0, 7)] + [(ids3, ('xml',), (k,)) for k in range(0, 4)]
+    res4 = bounded.pmap(c17._chunk, bounded.shard(rplans, 4))
+    fails4 = []
+    for f in sorted(res4['failures'], key=lambda f: str(f['input']))[:1]:
+        fails4.append(Failure(sig('rt', 'parse_folder.main', 'resumed-run-same-result'), 'a page processed in a resumed run does not get the result of an uninterrupted run: %s on %s' % (f['observed'], f['input']),
+                              function='parse_folder.main', input=dict(f['input'], resumed=True), observed=f['observed'], clause='resumed-run-same-result'))
+    ctx.add_bounded('resumed-runs', 'parse_folder.main() on 3 pages whose stub results depend on the page image, outputs {xml, logits} / {xml}, killed after 0..6 writes and resumed with --skip-processed',
+                    res4['evaluations'], res4['nontrivial'], True, res4['samples'], fails4, rule='every kill position', clause='a page gets the same result in a resumed run as in an uninterrupted one')
     bounded.close()
     ctx.trusted += ['A6: the decoder object and its LM are pure functions of their arguments (LMWrapper methods assign no attribute: checked by the frame scan)',
                     'module-level RNG reads in layout stages (random tie-breaks between lines with equal coordinates) are listed by the frame scan, not proved absent',
@@ -261,6 +274,9 @@ def replay(entry):
     if inp.get('engine_history'):
         from props import C07
         return C07.replay(entry)
+    if inp.get('resumed'):
+        from props import C17
+        return C17.replay(entry)
     if 'history' not in inp:
         print('replay: obligation %s has no concrete input; solver output:\n%s' % (entry.get('obligation'), entry.get('solver_output')))
         return 1
